@@ -704,8 +704,11 @@ func (k *Checker) checkWire(n *Node, pre, post *raft.VerifState, ctx *callCtx) {
 		// which only weakens the oracle), or the membership changed
 		x.snapPending = map[uint64]bool{}
 	}
-	if ctx.msg != nil && ctx.what == "Step" && ctx.msg.GetFrom() != n.id {
-		delete(x.snapPending, ctx.msg.GetFrom())
+	if m := ctx.msg; m != nil && ctx.what == "Step" && m.GetFrom() != n.id && m.GetType() == pb.MsgAppResp && !m.GetReject() {
+		// the follower acknowledged something: it is no longer waiting for the
+		// snapshot (conservatively for any acknowledgement). A rejection or a
+		// heartbeat response says nothing about the transfer: it stays pending.
+		delete(x.snapPending, m.GetFrom())
 	}
 	for _, m := range fresh {
 		switch m.GetType() {
@@ -743,9 +746,9 @@ func (k *Checker) checkMsgApp(n *Node, x *nodeChk, pre, post *raft.VerifState, m
 		k.c.stats.probe("single_entry_over_maxsize")
 	}
 	// C16 fc.snapshot_pending: no append to a follower whose snapshot transfer
-	// is still pending (sent, outcome not reported, nothing heard from it since).
+	// is still pending (sent, outcome not reported, nothing acknowledged by it since).
 	if x.snapPending[m.GetTo()] {
-		k.report("C16", "fc.snapshot_pending", n, fmt.Sprintf("MsgApp sent to %d while the snapshot sent to it is still pending (no ReportSnapshot, no response from it)", m.GetTo()), "")
+		k.report("C16", "fc.snapshot_pending", n, fmt.Sprintf("MsgApp sent to %d while the snapshot sent to it is still pending (no ReportSnapshot, no acknowledgement from it)", m.GetTo()), "")
 		return
 	}
 	// C16 fc.snapshot_pause
